@@ -319,6 +319,18 @@ def o_bloom(case):
             item = refhash.murmur3_collision_partner(added[-1], (fn * 0xFBA4C795 + tweak) & M32, op[2], op[3])
             f.add_item(item)
             labels.add("collides-under-fn=%s" % ("0" if fn == 0 else "1+"))
+        elif kind == "hit":
+            # a 4-byte element constructed so that one of the filter's hash functions gives a chosen 32-bit value that is
+            # tied to the filter's size: exactly the bit count (position 0 after reduction), a multiple of it, one off,
+            # the last position, the extremes
+            if nfuncs == 0:
+                continue
+            fn = op[1] % nfuncs
+            bits = 8 * size
+            target = [bits, bits, 2 * bits, bits - 1, bits + 1, 0, M32, M32 - M32 % bits, 8 * (size - 1), bits * 3 + 7][op[2] % 10] & M32
+            item = refhash.murmur3_preimage4(target, (fn * 0xFBA4C795 + tweak) & M32)
+            f.add_item(item)
+            labels.add("hash-value=%s" % ("bit-count" if target == bits else "other-chosen"))
         elif kind == "hash160":
             item = (bytes.fromhex(op[1]) * 20)[:20]
             f.add_hash160(item)
@@ -372,6 +384,7 @@ def s_bloom():
         st.tuples(st.integers(0, 255), hx).map(lambda t: ["address", t[0], t[1]]),
         st.tuples(hx, st.one_of(st.integers(0, 3), st.integers(0, M32)), st.booleans()).map(lambda t: ["spendable", t[0], t[1], t[2]]),
         st.tuples(st.sampled_from([0, 0, 0, 1, 2, 5]), st.integers(0, 8), st.integers(0, M32)).map(lambda t: ["collide", t[0], t[1], t[2]]),
+        st.tuples(st.sampled_from([0, 0, 1, 2, 5, 11]), st.integers(0, 9)).map(lambda t: ["hit", t[0], t[1]]),
     )
     return st.fixed_dictionaries({"size": size, "nfuncs": nfuncs, "tweak": tweak, "ops": st.lists(op, max_size=6)})
 
